@@ -103,12 +103,59 @@ def prove_chain(run):
         run.crash("C01_sym: no case generated")
 
 
-def prove_tree(run):
-    from vk.specs import tree as T
-    from vk.specs import treeuniv as TU
+def _tree_case(run, bt, terms, rng_, case0, tagbase, how):
+    """construct_symbolic_ttno on one tree with the coefficient vector replaced by indeterminates; returns the number of (tree, algorithm) cases decided"""
     import renormalizer.tn.symbolic_ttno as st
     from renormalizer.model import Model
     from itertools import chain as ichain
+    nodes = bt.postorder_list()
+    model = Model(list(ichain(*[n.basis_sets for n in nodes])), [])
+    table0, primary_ops, factor0 = st._terms_to_table(model, terms, 0.0)
+    if table0.shape[0] < 2:
+        return 0
+    vf = VarFactory()
+    x = np.array([vf.fresh() for _ in range(table0.shape[0])], dtype=object)
+    want = F.target(table0, primary_ops, x)
+    case = dict(case0, terms=[repr(t) for t in terms], rows=int(table0.shape[0]))
+    orig = st._terms_to_table
+    ncase = 0
+    for algo in GRAPH_ALGOS:
+        ncase += 1
+        tag = f"{tagbase}:{algo}"
+
+        def run_with(coeffs):
+            def fake(model_, terms_, const_):
+                t, p, f = orig(model_, terms_, const_)
+                assert t.shape == table0.shape and np.array_equal(t, table0)
+                return t, p, coeffs.copy()
+            st._terms_to_table = fake
+            try:
+                mpo, _ = st.construct_symbolic_ttno(bt, terms, 0.0, algo)
+            finally:
+                st._terms_to_table = orig
+            return F.expand_tree(nodes, mpo)
+
+        def native():
+            c = rng_.normal(size=len(x)) + 1j * rng_.normal(size=len(x))
+            keys, a, b = F.as_vectors(run_with(c), F.target(table0, primary_ops, c))
+            return a, b
+        with op_shim():
+            try:
+                got = run_with(x)
+            except Exception as e:
+                decide_true(run, f"post:construct_symbolic_ttno:total@{tag}", "construct_symbolic_ttno", False,
+                            f"raised on indeterminate coefficients: {type(e).__name__}: {e}", case)
+                continue
+        keys, a, b = F.as_vectors(got, want)
+        decide(run, f"post:construct_symbolic_ttno:formal_sum_for_all_coefficients@{tag}", "construct_symbolic_ttno", a, b, dict(case, algo=algo),
+               numeric_replay=native_pair(native, how), fields={"algo": algo})
+    return ncase
+
+
+def prove_tree(run):
+    from vk.specs import tree as T
+    from vk.specs import treeuniv as TU
+    from renormalizer.model import Model
     ncase = 0
     nmax = 4 if run.tier == "quick" else 5
     for n_nodes in range(2, nmax + 1):
@@ -124,48 +171,33 @@ def prove_tree(run):
                 if su is None or su["shape"] in seen:
                     continue
                 seen.add(su["shape"])
-                bt, terms = su["bt"], su["terms"]
-                nodes = bt.postorder_list()
-                model = Model(list(ichain(*[n.basis_sets for n in nodes])), [])
-                table0, primary_ops, factor0 = st._terms_to_table(model, terms, 0.0)
-                if table0.shape[0] < 2:
-                    continue
-                vf = VarFactory()
-                x = np.array([vf.fresh() for _ in range(table0.shape[0])], dtype=object)
-                want = F.target(table0, primary_ops, x)
-                case = dict(TU.describe_tree(bt), flavour=flavour, seed=seed, shape=repr(su["shape"]), terms=[repr(t) for t in terms], rows=int(table0.shape[0]))
-                orig = st._terms_to_table
-                for algo in GRAPH_ALGOS:
-                    ncase += 1
-                    tag = f"{flavour}:{su['shape']!r}:{algo}"
+                case0 = dict(TU.describe_tree(su["bt"]), flavour=flavour, seed=seed, shape=repr(su["shape"]))
+                ncase += _tree_case(run, su["bt"], su["terms"], su["rng"], case0, f"{flavour}:{su['shape']!r}",
+                                    "props.C01_sym.prove_tree: vk.specs.treeuniv.setup(seed, n_nodes, flavour); same term table, random complex coefficients, real construct_symbolic_ttno")
+    # hub nodes: many children AND several basis sets on one node (5..6 index columns in the node's table), at the root and below it
+    hubs = [(4, 1), (3, 2), (2, 3)] if run.tier == "quick" else [(4, 1), (3, 2), (2, 3), (5, 1), (4, 2)]
+    for nch, nsets in hubs:
+        for where in ("root", "inner"):
+            rng = np.random.default_rng([run.seed, nch, nsets, 271, len(where)])
+            cnt = [0]
 
-                    def run_with(coeffs):
-                        def fake(model_, terms_, const_):
-                            t, p, f = orig(model_, terms_, const_)
-                            assert t.shape == table0.shape and np.array_equal(t, table0)
-                            return t, p, coeffs.copy()
-                        st._terms_to_table = fake
-                        try:
-                            mpo, _ = st.construct_symbolic_ttno(bt, terms, 0.0, algo)
-                        finally:
-                            st._terms_to_table = orig
-                        return F.expand_tree(nodes, mpo)
-
-                    def native():
-                        c = su["rng"].normal(size=len(x)) + 1j * su["rng"].normal(size=len(x))
-                        keys, a, b = F.as_vectors(run_with(c), F.target(table0, primary_ops, c))
-                        return a, b
-                    with op_shim():
-                        try:
-                            got = run_with(x)
-                        except Exception as e:
-                            decide_true(run, f"post:construct_symbolic_ttno:total@{tag}", "construct_symbolic_ttno", False,
-                                        f"raised on indeterminate coefficients: {type(e).__name__}: {e}", case)
-                            continue
-                    keys, a, b = F.as_vectors(got, want)
-                    decide(run, f"post:construct_symbolic_ttno:formal_sum_for_all_coefficients@{tag}", "construct_symbolic_ttno", a, b, dict(case, algo=algo),
-                           numeric_replay=native_pair(native, "props.C01_sym.prove_tree: vk.specs.treeuniv.setup(seed, n_nodes, flavour); same term table, random complex "
-                                                              "coefficients, real construct_symbolic_ttno"), fields={"algo": algo})
+            def mk():
+                cnt[0] += 1
+                return T.make_basis("spinqn", f"s{cnt[0] - 1}")
+            hub_payload = [mk() for _ in range(nsets)]
+            kids = [[mk()] for _ in range(nch)]
+            if where == "root":
+                shape, payloads = tuple(() for _ in range(nch)), [hub_payload] + kids
+            else:
+                shape, payloads = (tuple(() for _ in range(nch)), ()), [[mk()], hub_payload] + kids + [[mk()]]
+            bt = T.build_basis_tree(shape, payloads)
+            created = [b for p_ in payloads for b in p_]
+            terms = TU.hermitian_terms(Model(created, []), rng)
+            if not terms:
+                continue
+            case0 = dict(TU.describe_tree(bt), flavour="spinqn", shape=repr(shape), hub={"children": nch, "basis_sets": nsets, "position": where})
+            ncase += _tree_case(run, bt, terms, rng, case0, f"hub{nch}+{nsets}:{where}",
+                                "props.C01_sym.prove_tree: hub tree (children, basis sets, position) with vk.specs.treeuniv.hermitian_terms; random complex coefficients")
     run.extra.setdefault("symx", {})["C02"] = {"tree_shapes_x_algorithms": ncase, "shims": SHIMS}
     if ncase == 0:
         run.crash("C02_sym: no case generated")
